@@ -283,7 +283,7 @@ theorem any_map_bool (l : List Rat) :
     · simp [hx]
     · have h1 : ((1 : Rat) != 0) = true := by decide
       have h2 : (x != 0) = true := by simpa [bne_iff_ne] using hx
-      simp [hx, h1, h2]
+      simp [h1, h2]
 
 theorem vals_boolEntries (n m : Nat) (k : Kind) (es : List (Nat × Nat × Rat)) (i j : Nat) :
     (⟨n, m, k, boolEntries es⟩ : Coo).vals i j
@@ -344,8 +344,8 @@ theorem take_one_filter (l : List β) (p : β → Bool) : (l.filter p).take 1 = 
   | nil => rfl
   | cons x xs ih =>
     by_cases h : p x = true
-    · simp [List.filter_cons, List.find?_cons, h]
-    · simp [List.filter_cons, List.find?_cons, h, ih]
+    · simp [h]
+    · simp [h, ih]
 
 theorem filter_filterMap_congr (U : List γ) (F : γ → Option β) (p : β → Bool) (q : γ → Bool)
     (h : ∀ r ∈ U, ∀ e, F r = some e → p e = q r) :
@@ -357,13 +357,13 @@ theorem filter_filterMap_congr (U : List γ) (F : γ → Option β) (p : β → 
     cases hF : F r with
     | none =>
       by_cases hq : q r = true
-      · simp [List.filterMap_cons, List.filter_cons, hF, hq, ih']
-      · simp [List.filterMap_cons, List.filter_cons, hF, hq, ih']
+      · simp [hF, hq, ih']
+      · simp [hF, hq, ih']
     | some e =>
       have hpe := h r (List.mem_cons_self) e hF
       by_cases hq : q r = true
-      · simp [List.filterMap_cons, List.filter_cons, hF, hq, hpe, ih']
-      · simp [List.filterMap_cons, List.filter_cons, hF, hq, hpe, ih']
+      · simp [hF, hq, hpe, ih']
+      · simp [hF, hq, hpe, ih']
 
 /-- keeping the first occurrence of every row keeps the first listed weight of every edge -/
 theorem listed_firstRows [DecidableEq α] (lt : α → α → Bool) (es : List ((α × α) × Rat)) (a b : α) :
